@@ -64,6 +64,9 @@ type Spec struct {
 	// Classify gives the known-findings key for a P-disagreement (line, expected, observed). Default "<prop>:corr:<op>".
 	Classify    func(c Case, line int, want, got string) string
 	Assumptions []string
+	// Shards (optional) splits the generated cases over that many child processes of the same binary (case i goes to
+	// shard i mod n); useful for scheduler-driven scripts, which cannot run concurrently inside one process.
+	Shards func(tier string) int
 	// Trusted lists property-specific additions to the trusted base (modelled-not-verified libraries etc.).
 	Trusted []string
 }
@@ -258,9 +261,18 @@ func Main(spec Spec, args []string) {
 	corpus := fs.String("corpus", "", "directory of *.ops corpus scripts (run first)")
 	replay := fs.String("replay", "", "replay one script file (ops, one per line) and print both streams")
 	maxDis := fs.Int("max-disagreements", 5, "stop collecting after this many")
+	shard := fs.String("shard", "", "internal: i/n — run only the generated cases with index ≡ i mod n")
 	_ = fs.Parse(args)
 	start := time.Now()
 	e := &engine{spec: spec, oracle: *oracle}
+	shardI, shardN := 0, 1
+	if *shard != "" {
+		fmt.Sscanf(*shard, "%d/%d", &shardI, &shardN)
+	} else if spec.Shards != nil && *replay == "" {
+		if n := spec.Shards(*tier); n > 1 {
+			os.Exit(runSharded(n, args, *out, start))
+		}
+	}
 
 	if *replay != "" {
 		os.Exit(replayFile(e, *replay))
@@ -300,9 +312,21 @@ func Main(spec Spec, args []string) {
 	if spec.Fixed != nil {
 		cases = append(cases, spec.Fixed()...)
 	}
+	if shardN > 1 { // corpus + fixed cases are split like the generated ones
+		var mine []Case
+		for i, c := range cases {
+			if i%shardN == shardI {
+				mine = append(mine, c)
+			}
+		}
+		cases = mine
+	}
 	root := rng.New(*seed)
 	n := spec.Count(*tier)
 	for i := 0; i < n; i++ {
+		if i%shardN != shardI {
+			continue
+		}
 		cases = append(cases, spec.Gen(root.Fork(uint64(i)), *tier, i))
 	}
 
@@ -425,6 +449,86 @@ func Main(spec Spec, args []string) {
 	writeJSON(*out, o)
 	fmt.Printf("corr %s tier=%s seed=%d cases=%d ops=%d distinct_nontrivial=%d disagreements=%d monitor_hits=%d wall=%.1fs\n",
 		spec.Property, *tier, *seed, o.Evaluations, o.Ops, o.DistinctNonTrivial, len(o.Disagreements), len(o.MonitorHits), o.WallS)
+}
+
+// runSharded re-executes this binary n times with -shard i/n and merges the result files.
+func runSharded(n int, args []string, out string, start time.Time) int {
+	type child struct {
+		cmd  *exec.Cmd
+		path string
+		log  bytes.Buffer
+	}
+	var kids []*child
+	for i := 0; i < n; i++ {
+		c := &child{path: fmt.Sprintf("%s.shard%d", out, i)}
+		a := append([]string{"corr"}, args...)
+		a = append(a, "-shard", fmt.Sprintf("%d/%d", i, n), "-out", c.path)
+		c.cmd = exec.Command(os.Args[0], a...)
+		c.cmd.Stdout = &c.log
+		c.cmd.Stderr = &c.log
+		if err := c.cmd.Start(); err != nil {
+			fmt.Fprintln(os.Stderr, "shard start:", err)
+			return 2
+		}
+		kids = append(kids, c)
+	}
+	var m Output
+	first := true
+	rc := 0
+	keys := map[string]bool{}
+	for _, c := range kids {
+		if err := c.cmd.Wait(); err != nil {
+			rc = 2
+		}
+		b, err := os.ReadFile(c.path)
+		var o Output
+		if err != nil || json.Unmarshal(b, &o) != nil {
+			fmt.Fprintln(os.Stderr, "shard failed:", c.log.String())
+			rc = 2
+			continue
+		}
+		os.Remove(c.path)
+		if first {
+			m = o
+			first = false
+			for _, d := range m.Disagreements {
+				keys["d:"+d.Key] = true
+			}
+			for _, h := range m.MonitorHits {
+				keys["h:"+h.Key] = true
+			}
+			continue
+		}
+		m.Evaluations += o.Evaluations
+		m.DistinctNonTrivial += o.DistinctNonTrivial // shards run disjoint case indices
+		m.Ops += o.Ops
+		for k, v := range o.Distribution {
+			m.Distribution[k] += v
+		}
+		for k, v := range o.OutputKinds {
+			m.OutputKinds[k] += v
+		}
+		for _, d := range o.Disagreements {
+			if !keys["d:"+d.Key] {
+				keys["d:"+d.Key] = true
+				m.Disagreements = append(m.Disagreements, d)
+			}
+		}
+		for _, h := range o.MonitorHits {
+			if !keys["h:"+h.Key] {
+				keys["h:"+h.Key] = true
+				m.MonitorHits = append(m.MonitorHits, h)
+			}
+		}
+		if o.HarnessError != "" {
+			m.HarnessError = o.HarnessError
+		}
+	}
+	m.WallS = time.Since(start).Seconds()
+	writeJSON(out, m)
+	fmt.Printf("corr %s tier=%s seed=%d shards=%d cases=%d ops=%d distinct_nontrivial=%d disagreements=%d monitor_hits=%d wall=%.1fs\n",
+		m.Property, m.Tier, m.Seed, n, m.Evaluations, m.Ops, m.DistinctNonTrivial, len(m.Disagreements), len(m.MonitorHits), m.WallS)
+	return rc
 }
 
 func replayFile(e *engine, path string) int {
